@@ -216,8 +216,22 @@ def codec_corr(pipe, res, nper, modes, want_dec=True, classes=None, big=False):
     # requests on which the model predicts undefined behaviour or an allocation failure run in a child process
     sent = [('!' + r) if ' halt=oob' in a else r for r, a in zip(reqs, mod)]
     imp, rc, err = lib.session(exe, sent, timeout=1800)
+    crashes = 0
+    while len(imp) < len(reqs) and crashes < 25:
+        # the harness process died on request len(imp): that request is the input; it is repeated in a child process
+        # (the answer then says how it died) and the session continues behind it
+        k = len(imp)
+        crashes += 1
+        res.corr.setdefault('harness_crashes', []).append({'request': sent[k][:600], 'request_len': len(sent[k]), 'rc': rc, 'stderr': err[-300:]})
+        if crashes <= 3:
+            lib.write_replay(res.pid, {'property': res.pid, 'kind': 'harness-crash', 'request': sent[k], 'rc': rc, 'stderr': err[-1500:]})
+        if sent[k].startswith('!'):
+            break
+        sent[k] = '!' + sent[k]
+        more, rc, err = lib.session(exe, sent[k:], timeout=1800)
+        imp += more
     if len(imp) != len(reqs):
-        res.oblige('D:harness-session', False, 'got %d answers for %d requests; rc=%s stderr=%s' % (len(imp), len(reqs), rc, err[-1500:]))
+        res.oblige('D:harness-session', False, 'got %d answers for %d requests; rc=%s stderr=%s; request %s' % (len(imp), len(reqs), rc, err[-1500:], sent[len(imp)][:400] if len(imp) < len(sent) else ''))
         return reqs, mod, imp
     return reqs, mod, imp
 
@@ -307,7 +321,7 @@ def compare_codec(res, reqs, mod, imp, summary):
                 res.corr.setdefault('skipped_indeterminate', 0)
                 res.corr['skipped_indeterminate'] += 1
                 continue
-        dis.append({'request': r[:400], 'model': a[:600], 'impl': b[:600], 'why': ['answers differ']})
+        dis.append({'request': r, 'model': a[:600], 'impl': b[:600], 'why': ['answers differ']})
     return dis
 
 
@@ -411,7 +425,7 @@ def finish(res, known_filter):
                 v['found'] = False
             p = lib.write_replay(res.pid, {'property': res.pid, 'kind': v['kind'], 'what': v['what'], 'replay': v['payload'],
                                            'broken_obligations': [n for n, _ in broken][:20],
-                                           'how_to_replay': 'python3 checks/run.py %s --replay <this file>' % res.pid})
+                                           'how_to_replay': 'python3 checks/run.py %s --replay <this file>   (runs the recorded input again through the implementation and the model and prints both answers)' % res.pid})
             lines.append('VIOLATION property=%s replay=%s' % (res.pid, p) + ('' if v['found'] else ' no-failing-input-found'))
         rc = 1
     elif broken:
@@ -497,7 +511,7 @@ def check_C03(res):
             seen.setdefault((cn, kind), (detail, r))
         res.corr['oracle_failures_by_class'] = sorted('%s:%s' % k for k in seen)
         for (cn, kind), (detail, r) in seen.items():
-            res.violation('framing', '%s: %s (%s)' % (cn, kind, detail), {'class': cn, 'failure': kind, 'detail': detail, 'request': r[:2000]})
+            res.violation('framing', '%s: %s (%s)' % (cn, kind, detail), {'class': cn, 'failure': kind, 'detail': detail, 'request': r})
         oobs = {}
         for cmd, cn, r in res.corr.pop('oob_list', []):
             if cmd == 'enc':
@@ -578,6 +592,21 @@ def reenc_verdict(img, ans, m, pads):
     if len(body) + (len(out) - len(body)) < pos and not pads:
         return 're-encoded %d bytes but the decoder consumed %d' % (len(out), pos)
     return 'ok'
+
+
+def filler_only(img, out, base_out, m, mut):
+    """the re-encoding differs from the overwritten image only at overwritten offsets whose bytes the decoder ignored
+    (they come out exactly as in the re-encoding of the unmodified image)"""
+    off, width = mut[0], mut[2]
+    if len(out) != len(base_out):
+        return False
+    a, b = masked(out, m), masked(img[:len(out)], m)
+    if len(a) != len(b):
+        return False
+    for k in range(len(a)):
+        if a[k] != b[k] and not (off <= k < off + width and out[k] == base_out[k]):
+            return False
+    return True
 
 
 def check_C02(res):
@@ -705,6 +734,11 @@ def check_C02(res):
                 # not a field value, outside the property
                 stats.setdefault('derived_ignored_filler_byte', 0)
                 stats['derived_ignored_filler_byte'] += 1
+            elif len(mut) > 2 and filler_only(img, bytes.fromhex(d['out']), bytes.fromhex(ba['out']), m, mut):
+                # a 2/4/8-byte overwrite that covers a field and filler behind it (SerialEvent single-byte variant): every byte
+                # that is not reproduced lies inside the overwritten range and comes out as in the unmodified image
+                stats.setdefault('derived_partly_filler', 0)
+                stats['derived_partly_filler'] += 1
             else:
                 fails.setdefault((cn, 'derived-not-reproduced'), (name, '%s after overwrite %s' % (v, mut), r))
     res.corr['disagreements'] = dis
@@ -714,7 +748,7 @@ def check_C02(res):
     res.corr['samples'] = [{'request': reqs[i][:160], 'answer': imp[i][:200]} for i in (0, 1, 2)]
     res.corr.update({k: (v if not isinstance(v, list) else v[:10]) for k, v in stats.items()})
     for (cn, kind), (name, v, r) in fails.items():
-        res.violation('reencode', '%s: %s (%s: %s)' % (cn, kind, name, v), {'class': cn, 'failure': kind, 'image': name, 'detail': v, 'request': r[:4000]})
+        res.violation('reencode', '%s: %s (%s: %s)' % (cn, kind, name, v), {'class': cn, 'failure': kind, 'image': name, 'detail': v, 'request': r})
     finish_codec(res)
 
 
@@ -935,7 +969,7 @@ def file_determinism(res, pipe, summary, rng):
     res.corr['file_level_cases'] = len(cases)
     res.corr['file_level_runs'] = len(reqs) + 3 * len(cases)
     for kind, (c, det) in bad.items():
-        res.violation('nondeterministic', '%s (%s)' % (kind, det), {'class': 'File', 'failure': kind, 'config': c.opts(), 'objects': c.tail()[:3000]})
+        res.violation('nondeterministic', '%s (%s)' % (kind, det), {'class': 'File', 'failure': kind, 'config': c.opts(), 'objects': c.tail()})
 
 
 # ================================================================================================ monitors
@@ -1327,7 +1361,7 @@ def check_C01(res):
             if not (indet and 'outcome=ended' in a and 'outcome=ended' in ma):
                 dis += 1
                 if dis <= 10:
-                    res.violation('model-vs-implementation', 'readFile: model and implementation answers differ', {'file': o['file'].hex()[:4000], 'model': ma[:1500], 'impl': a[:1500]})
+                    res.violation('model-vs-implementation', 'readFile: model and implementation answers differ', {'file': o['file'].hex(), 'model': ma[:1500], 'impl': a[:1500]})
         else:
             stats['reads_identical_model_impl'] += 1
         # property oracle on the implementation
@@ -1339,6 +1373,17 @@ def check_C01(res):
             kind = 'no-clean-eof'
         else:
             exp = o['expected']
+            # an object whose type code on the wire is not mapped to its class by the factory is skipped by the reader (that is the
+            # specified treatment of unknown types, C09): it is reported as lost, and the rest is compared without it
+            fmap = summary.get('factory', {})
+            def mapped(e):
+                return len(e['bytes']) >= 16 and fmap.get(str(int.from_bytes(e['bytes'][12:16], 'little'))) == e['class']
+            if len(objs) < len(exp) and any(not mapped(e) for e in exp):
+                lost = [e for e in exp if not mapped(e)]
+                key = (lost[0]['class'], 'object-lost')
+                if key not in fails or len(c.objs) < len(fails[key][0].objs):
+                    fails[key] = (c, 'type code %d is not mapped to %s by the factory' % (int.from_bytes(lost[0]['bytes'][12:16], 'little'), lost[0]['class']))
+                exp = [e for e in exp if mapped(e)]
             for i in range(max(len(exp), len(objs))):
                 if i >= len(objs):
                     kind = 'object-lost'; cn0 = exp[i]['class']; break
@@ -1373,7 +1418,7 @@ def check_C01(res):
     res.corr['samples'] = [{'config': c.opts(), 'objects': [x[0] for x in c.objs][:5]} for c in cases[:4]]
     res.corr.update(stats)
     for (cn, kind), (c, det) in fails.items():
-        res.violation('roundtrip', '%s: %s (%s)' % (cn, kind, det[:160]), {'class': cn, 'failure': kind, 'config': c.opts(), 'objects': c.tail()[:3000]})
+        res.violation('roundtrip', '%s: %s (%s)' % (cn, kind, det[:160]), {'class': cn, 'failure': kind, 'config': c.opts(), 'objects': c.tail()})
     finish_codec(res)
 
 
@@ -1457,7 +1502,7 @@ def check_C04(res):
     res.corr['rule'] = 'object sequences (incl. empty) of exactly-framed classes x levels x container sizes x trailer on/off, the first 20 sequences under three further configurations; files written by the real File are parsed by a strict stdlib-only Python decoder (spec/blfparse.py); non-trivial = distinct (configuration, sequence)'
     res.corr['samples'] = [{'config': c.opts(), 'objects': [x[0] for x in c.objs][:5], 'containers': len(o['chunks'])} for c, o in list(zip(cases, out))[:4]]
     for kind, (c, det) in nfail.items():
-        res.violation('container-format', '%s (%s)' % (kind, det[:200]), {'class': 'File', 'failure': kind, 'config': c.opts(), 'objects': c.tail()[:3000]})
+        res.violation('container-format', '%s (%s)' % (kind, det[:200]), {'class': 'File', 'failure': kind, 'config': c.opts(), 'objects': c.tail()})
     finish_codec(res)
 
 
@@ -1489,7 +1534,7 @@ def check_C05(res):
         if not fc.compare_read(summary, ma, a):
             dis += 1
             if dis <= 10:
-                res.violation('model-vs-implementation', 'readFile: model and implementation answers differ', {'file': f.hex()[:4000], 'model': ma[:1200], 'impl': a[:1200]})
+                res.violation('model-vs-implementation', 'readFile: model and implementation answers differ', {'file': f.hex(), 'model': ma[:1200], 'impl': a[:1200]})
         c = cases[i] if i < len(cases) else None
         name = 'written' if c else os.path.basename(logs[i - len(cases)])
         try:
@@ -1523,7 +1568,9 @@ def check_C05(res):
         if int(d.get('usize', -1)) != hdr['uncompressedFileSize'] or int(d.get('usize', -1)) != want_usize:
             nfail.setdefault('reader-uncompressed-size' + ('' if c else '-reference-log'), (c, '%s: reader %s header %d recomputed %d' % (name, d.get('usize'), hdr['uncompressedFileSize'], want_usize)))
         if int(d.get('count', -1)) != hdr['objectCount']:
-            nfail.setdefault('reader-object-count' + ('' if c else '-reference-log'), (c, '%s: reader %s header %d' % (name, d.get('count'), hdr['objectCount'])))
+            # (finding 6: a default EnvironmentVariable carries type UNKNOWN, which the reader skips; such a case is attributed to that class)
+            envu = c is not None and any(x[0] == 'EnvironmentVariable' and int.from_bytes(x[1].get(4, b'\0'), 'little') not in (6, 7, 8, 9) for x in c.objs)
+            nfail.setdefault('reader-object-count' + ('' if c else '-reference-log') + (':EnvironmentVariable' if envu else ''), (c, '%s: reader %s header %d' % (name, d.get('count'), hdr['objectCount'])))
     res.corr['disagreements'] = dis
     res.oblige('D:file-correspondence', dis == 0, '%d disagreements' % dis)
     res.corr['distinct'] = len(set(files))
@@ -1531,7 +1578,10 @@ def check_C05(res):
     res.corr['rule'] = 'written files as in C04 with caller-supplied header fields, plus the reference logs; header fields compared with an independent recomputation from the container walk (spec/blfparse.py) and with the reader counters after a complete read'
     res.corr['samples'] = [{'config': c.opts(), 'objects': [x[0] for x in c.objs][:5]} for c in cases[:3]]
     for kind, (c, det) in nfail.items():
-        res.violation('statistics', '%s (%s)' % (kind, str(det)[:200]), {'class': 'File', 'failure': kind, 'config': c.opts() if c else None, 'objects': c.tail()[:3000] if c else det})
+        cls = 'File'
+        if kind.endswith(':EnvironmentVariable'):
+            kind, cls = kind[:-len(':EnvironmentVariable')], 'EnvironmentVariable'
+        res.violation('statistics', '%s (%s)' % (kind, str(det)[:200]), {'class': cls, 'failure': kind, 'config': c.opts() if c else None, 'objects': c.tail() if c else det})
     finish_codec(res)
 
 
@@ -1586,7 +1636,7 @@ def check_C08(res):
         if not fc.compare_read(summary, ma, a):
             dis += 1
             if dis <= 10:
-                res.violation('model-vs-implementation', 'readFile of a truncated file: model and implementation differ', {'file': f.hex()[:4000], 'cut': k, 'model': ma[:800], 'impl': a[:800]})
+                res.violation('model-vs-implementation', 'readFile of a truncated file: model and implementation differ', {'file': f.hex(), 'cut': k, 'model': ma[:800], 'impl': a[:800]})
         d, st, objs = fc.split_read(a)
         c, o = cases[ci], out[ci]
         if k == n:
@@ -1613,12 +1663,16 @@ def check_C08(res):
             acc = 0
             exp_n = 0
             for e in o['expected']:
-                if acc + len(e['bytes']) <= payload:
+                # an object is there when all its fields are there; the alignment padding behind it (objectSize % 4 bytes, skipped
+                # with a seek) is not part of it -- this is `TruncRound.jOf`/`bodyLen` of the theorem
+                usz = int.from_bytes(e['bytes'][8:12], 'little')
+                body = usz if usz <= len(e['bytes']) < usz + 4 else len(e['bytes'])
+                if acc + body <= payload:
                     acc += len(e['bytes']); exp_n += 1
                 else:
                     break
             if len(objs) != exp_n:
-                fails.setdefault('wrong-object-count', (ci, vn, k, 'delivered %d objects, %d are wholly contained in completely stored containers' % (len(objs), exp_n)))
+                fails.setdefault('wrong-object-count', (ci, vn, k, 'delivered %d objects, %d have all their fields in completely stored containers' % (len(objs), exp_n)))
             for j, (cn, dump) in enumerate(objs[:exp_n]):
                 e = o['expected'][j]
                 if cn != e['class'] or fc.mask_indet(summary, cn, dump) != fc.mask_indet(summary, cn, e['dump']):
@@ -1642,7 +1696,7 @@ def check_C08(res):
     res.corr['samples'] = [{'file_len': m[3], 'cut': m[2], 'header': m[1], 'answer': a[:80]} for m, a in list(zip(meta, r))[200:203]]
     for kind, (ci, vn, k, det) in fails.items():
         c = cases[ci]
-        res.violation('truncation', '%s at cut %d of a %s file (%s)' % (kind, k, vn, det[:160]), {'class': 'File', 'failure': kind, 'config': c.opts(), 'objects': c.tail()[:3000], 'cut': k, 'header': vn})
+        res.violation('truncation', '%s at cut %d of a %s file (%s)' % (kind, k, vn, det[:160]), {'class': 'File', 'failure': kind, 'config': c.opts(), 'objects': c.tail(), 'cut': k, 'header': vn})
     finish_codec(res)
 
 
@@ -1747,7 +1801,7 @@ def check_C09(res):
         if not fc.compare_read(summary, ma, a):
             dis += 1
             if dis <= 10:
-                res.violation('model-vs-implementation', 'readFile of a stream with filler: model and implementation differ', {'file': f.hex()[:6000], 'model': ma[:800], 'impl': a[:800]})
+                res.violation('model-vs-implementation', 'readFile of a stream with filler: model and implementation differ', {'file': f.hex(), 'model': ma[:800], 'impl': a[:800]})
         d, st, objs_r = fc.split_read(a)
         if d.get('outcome') != 'ended':
             fails.setdefault('read-' + str(d.get('outcome')), (f, a[:100]))
@@ -1920,7 +1974,7 @@ def decoder_safety(res, pipe, summary, rng):
                 break
     for cn, (r, b) in found.items():
         res.violation('hostile-input', '%s: the decoder writes outside its container (model: oob; sanitizer abort in the implementation: %s)' % (cn, b[:80]),
-                      {'class': cn, 'failure': 'decoder-out-of-bounds', 'request': r[:4000]})
+                      {'class': cn, 'failure': 'decoder-out-of-bounds', 'request': r})
 
 
 def classify_hostile(f, a, ma, kind=''):
@@ -2245,7 +2299,7 @@ def check_sched(res, prop):
                 if w and w[0].startswith('writefile out='):
                     break
             if not (w and w[0].startswith('writefile out=')):
-                fails.setdefault(('File', 'deadlock-write-session-' + name), ({'kind': 'write', 'reqs': {'native': rq[:300] + '...'}}, 'native', (w[0] if w else 'no answer')[:100]))
+                fails.setdefault(('File', 'deadlock-write-session-' + name), ({'kind': 'write', 'reqs': {'native': rq}}, 'native', (w[0] if w else 'no answer')[:100]))
                 continue
             fhex = w[0].split('out=')[1]
             for attempt in range(2):
@@ -2254,7 +2308,7 @@ def check_sched(res, prop):
                 if r and 'outcome=ended' in r[0]:
                     break
             if not (r and 'outcome=ended' in r[0] and ' n=%d ' % len(sizes) in r[0]):
-                fails.setdefault(('File', 'deadlock-read-session-' + name), ({'kind': 'read', 'reqs': {'native': 'readfile of: ' + rq[:300] + '...'}}, 'native', (r[0] if r else 'no answer')[:100]))
+                fails.setdefault(('File', 'deadlock-read-session-' + name), ({'kind': 'read', 'reqs': {'native': 'readfile of: ' + rq}}, 'native', (r[0] if r else 'no answer')[:100]))
     for (cl, kind), (sx, lab, det) in fails.items():
         res.violation('schedule', '%s under schedule %s of a %s session (%s)' % (kind, lab, sx['kind'], det[:200]),
                       {'class': cl, 'failure': kind, 'request': sx['reqs'].get(lab, ''), 'schedule': lab})
@@ -2373,7 +2427,7 @@ def residency_oracle(res, runs):
                 if bad <= 3:
                     k = len(parts)
                     res.violation('residency', 'write session of the in-memory stream: ' + why,
-                                  {'class': 'UncompressedFile', 'failure': 'held-bytes-grow-write-session', 'request': 'useq ' + ';'.join(ops)[:6000],
+                                  {'class': 'UncompressedFile', 'failure': 'held-bytes-grow-write-session', 'request': 'useq ' + ';'.join(ops),
                                    'held': pa[:300], 'tellg': tg, 'tellp': tp, 'dlcs': d})
                 break
             prev = op
@@ -2551,6 +2605,92 @@ def finish_codec(res):
 PROPS = {'C03': check_C03, 'C02': check_C02, 'C17': check_C17, 'C14': check_C14, 'C15': check_C15, 'C16': check_C16, 'C01': check_C01, 'C04': check_C04, 'C05': check_C05, 'C08': check_C08, 'C09': check_C09, 'C10': check_C10, 'C06': check_C06, 'C07': check_C07, 'C11': check_C11, 'C12': check_C12, 'C13': check_C13}
 
 
+def parse_case(fc, config, objects):
+    """inverse of Case.opts() / Case.tail()"""
+    kv_ = dict(t.split('=', 1) for t in config.split() if '=' in t)
+    hdr = {int(k[1:]): bytes.fromhex(v) for k, v in kv_.items() if k[0] == 'h' and k[1:].isdigit()}
+    objs = []
+    for chunk in objects.split(';;'):
+        toks = chunk.split()
+        if not toks:
+            continue
+        objs.append((toks[0], {int(t.split('=')[0]): bytes.fromhex(t.split('=')[1]) for t in toks[1:] if '=' in t}))
+    return fc.Case(int(kv_.get('level', 1)), int(kv_.get('cs', 131072)), kv_.get('rp', '0') == '1', objs, hdr)
+
+
+def replay(prop, path):
+    """run the input of a replay file again, through the implementation (current /repo tree) and through the model; prints both
+    answers; exit 1 if they differ or the implementation does not answer, else 0.  The verdict of the property's oracle is the
+    business of the check itself; this shows what the code does on the recorded input."""
+    import filechecks as fc
+    e = json.load(open(path))
+    r = e.get('replay') or e
+    res = Result(prop, 'quick')
+    pipe = Pipe(res)
+    tr = pipe.regenerate()
+    if not tr['ok']:
+        print('translation of the current tree failed'); return 1
+    lib.gen_checks(tr['summary'])
+    ok, fails, log = lib.lake_build(['blfdriver'])
+    drv = lib.driver_exe()
+    def show(tag, a):
+        print('%-6s %s' % (tag, a if len(a) < 3000 else a[:3000] + ' ...(%d chars)' % len(a)))
+    def both(exe, reqs, mreqs=None, env=None):
+        imp, rc, err = lib.session(exe, reqs, env=env, timeout=600)
+        mod, rc2, err2 = lib.session(drv, mreqs or reqs, timeout=600)
+        bad = 0
+        for i, rq in enumerate(reqs):
+            show('input', rq)
+            show('impl', imp[i] if i < len(imp) else 'NO ANSWER rc=%s %s' % (rc, err[-600:]))
+            show('model', mod[i] if i < len(mod) else 'NO ANSWER rc=%s %s' % (rc2, err2[-300:]))
+            if i >= len(imp) or i >= len(mod) or imp[i] != mod[i]:
+                bad = 1
+        return bad
+    req = r.get('request') or (r.get('reqs') or {}).get('native')
+    if isinstance(req, str) and req.split() and req.split()[0].lstrip('!') in ('enc', 'dec', 'reenc', 'dflt', 'encp', 'factory'):
+        exe = pipe.harness('codec_harness', ['codec_harness.cpp'])
+        return both(exe, [req])
+    if isinstance(req, str) and req.split() and req.split()[0] in ('useq', 'qseq'):
+        a_, f = lib.build_lib('san', lib.SAN)
+        exe, f = lib.build_exe('monitor_harness', [os.path.join(VERIF, 'harness', 'monitor_harness.cpp')], a_, lib.SAN + ['-fno-access-control'])
+        return both(exe, [req], env={'VERIF_PROBE_MS': '1500'})
+    fexe, cexe = fc.build_file_harness(pipe, res)
+    if 'file' in r:
+        f = bytes.fromhex(r['file'])
+        return both(fexe, ['readfile ' + (f.hex() or '-')], ['readfile %s %s' % (f.hex() or '-', ' '.join(blfparse_mod().zi_tokens(f)))], env=fc.fenv())
+    if 'config' in r and r.get('config') and isinstance(r.get('objects'), str):
+        c = parse_case(fc, r['config'], r['objects'])
+        out = fc.run_cases(pipe, res, [c], fexe, cexe)
+        if out is None or out[0]['file'] is None:
+            print('write failed:', None if out is None else out[0].get('wanswer', '')[:300]); return 1
+        o = out[0]
+        show('config', c.opts()); show('objs', c.tail())
+        show('file', o['file'].hex()); show('mfile', (o.get('mfile') or b'').hex())
+        bad = 0 if o['file'] == o.get('mfile') else 1
+        f = o['file']
+        if r.get('header') == 'initial-header':
+            f = fc_encode_initial_header() + f[144:]
+        if 'cut' in r:
+            f = f[:int(r['cut'])]
+        return both(fexe, ['readfile ' + (f.hex() or '-')], ['readfile %s %s' % (f.hex() or '-', ' '.join(blfparse_mod().zi_tokens(f)))], env=fc.fenv()) or bad
+    if isinstance(req, str):
+        return both(fexe, [req], env=fc.fenv())
+    if isinstance(r.get('reqs'), dict) or 'sched' in json.dumps(r)[:2000]:
+        sexe = build_sched_harness(pipe, res)
+        for k, rq in (r.get('reqs') or {}).items():
+            imp, rc, err = lib.session(sexe, [rq], env=fc.fenv(), timeout=600)
+            show('input', rq); show('impl', imp[0] if imp else 'NO ANSWER rc=%s %s' % (rc, err[-600:]))
+        return 0
+    print('this replay file names a broken proof obligation or a correspondence failure without an input:')
+    print(json.dumps(e, indent=1)[:3000])
+    return 0
+
+
+def blfparse_mod():
+    import blfparse
+    return blfparse
+
+
 def main():
     ap = argparse.ArgumentParser()
     ap.add_argument('prop', nargs='?')
@@ -2569,6 +2709,8 @@ def main():
     if a.prop not in PROPS:
         print('unknown property', a.prop)
         sys.exit(2)
+    if a.replay:
+        sys.exit(replay(a.prop, a.replay))
     res = Result(a.prop, a.tier)
     try:
         PROPS[a.prop](res)
